@@ -127,6 +127,8 @@ package raft
 //@ inv [I7] persTerm == r.currentTerm && persVote == r.votedFor
 //@ inv [I13] r.state == Leader ==> forall fid string :: fid in r.followers ==> r.followers[fid].nextIndex <= Llast + 1
 //@ inv [I11] r.operationManager != nil && r.operationManager.leaderLease != nil
+//@ inv [I11b] r.operationManager.pendingReadOnly != nil && r.operationManager.pendingReplicated != nil
+//@ inv [I11c] forall o *Operation :: o in r.operationManager.pendingReadOnly ==> o != nil
 //@ inv [I12] r.log != nil && r.stateStorage != nil && r.snapshotStorage != nil && r.transport != nil && r.fsm != nil && r.logger != nil
 
 //@ guar [G1] r.currentTerm >= old(r.currentTerm)
@@ -305,12 +307,13 @@ package raft
 //@ func Raft.nextConfiguration
 //@   flags lockheld
 //@   requires [next-nonnil] next != nil
-//@   requires [pre-nonnil] r.configuration != nil && r.followers != nil && r.operationManager != nil && r.operationManager.leaderLease != nil && r.logger != nil
+//@   requires [pre-nonnil] r.configuration != nil && r.followers != nil && r.operationManager != nil && r.operationManager.leaderLease != nil && r.logger != nil && r.operationManager.pendingReplicated != nil && r.operationManager.pendingReadOnly != nil
+//@   requires [pre-I11c] forall o *Operation :: o in r.operationManager.pendingReadOnly ==> o != nil
 //@   requires [pre-I6b] forall fid string :: fid in r.followers ==> r.followers[fid] != nil
 //@   ensures [config] r.configuration == next
 //@   ensures [I6b] forall fid string :: fid in r.followers ==> r.followers[fid] != nil
 //@   ensures [state] r.state == old(r.state) || (old(r.state) == Leader && r.state == Follower)
-//@   ensures [I11] r.operationManager != nil && r.operationManager.leaderLease != nil
+//@   ensures [I11] r.operationManager != nil && r.operationManager.leaderLease != nil && r.operationManager.pendingReplicated != nil && r.operationManager.pendingReadOnly != nil && (forall o *Operation :: o in r.operationManager.pendingReadOnly ==> o != nil)
 //@   ensures [answered-mono] forall c int :: old(answered[c]) ==> answered[c]
 //@   ensures [clock] now >= old(now)
 //@   loop range r.configuration.Members invariant [I6b] forall fid string :: fid in r.followers ==> r.followers[fid] != nil
@@ -329,7 +332,7 @@ package raft
 //@   ensures [G2] term == old(r.currentTerm) ==> r.votedFor == old(r.votedFor)
 //@   ensures [vote-cleared] term > old(r.currentTerm) ==> r.votedFor == ""
 //@   ensures [I7] persTerm == r.currentTerm && persVote == r.votedFor
-//@   ensures [tables-empty] r.operationManager != nil && r.operationManager.leaderLease != nil && card(dom(r.operationManager.pendingReplicated)) == 0 && card(dom(r.operationManager.pendingReadOnly)) == 0
+//@   ensures [tables-empty] r.operationManager != nil && r.operationManager.leaderLease != nil && r.operationManager.pendingReplicated != nil && r.operationManager.pendingReadOnly != nil && (forall k uint64 :: !(k in r.operationManager.pendingReplicated)) && (forall o *Operation :: !(o in r.operationManager.pendingReadOnly))
 //@   ensures [lease-fresh] r.operationManager.leaderLease.expiration <= now && now >= old(now)
 //@   ensures [snapshot-reset] r.snapshot == nil
 //@   ensures [answered-mono] forall c int :: old(answered[c]) ==> answered[c]
@@ -393,7 +396,7 @@ package raft
 //@   ensures [state] r.state == Leader && r.currentTerm == old(r.currentTerm) && r.votedFor == old(r.votedFor)
 //@   ensures [noop] Llast == old(Llast) + 1 && Lterm[Llast] == r.currentTerm && Ltyp[Llast] == NoOpEntry && forall i int :: i <= old(Llast) ==> Lterm[i] == old(Lterm[i]) && Ltyp[i] == old(Ltyp[i]) && Ldata[i] == old(Ldata[i])
 //@   ensures [reset] forall fid string :: fid in r.followers ==> r.followers[fid].matchIndex == 0 && r.followers[fid].nextIndex <= Llast + 1
-//@   ensures [I11] r.operationManager != nil && r.operationManager.leaderLease != nil
+//@   ensures [I11] r.operationManager != nil && r.operationManager.leaderLease != nil && r.operationManager.pendingReplicated != nil && r.operationManager.pendingReadOnly != nil && (forall o *Operation :: !(o in r.operationManager.pendingReadOnly))
 //@   ensures [lease-fresh] now >= old(now) && (!old(singleMember(r)) ==> r.operationManager.leaderLease.expiration <= now)
 //@   ensures [snapshot-reset] r.snapshot == nil
 //@   ensures [answered-mono] forall c int :: old(answered[c]) ==> answered[c]
@@ -507,7 +510,7 @@ package raft
 //@ func Raft.applyLoop
 //@   release s2 [order] operation.LogIndex == r.lastApplied + 1 && operation.LogIndex <= r.commitIndex && operation.LogTerm == Lterm[operation.LogIndex] && operation.Bytes == Ldata[operation.LogIndex] && Ltyp[operation.LogIndex] == OperationEntry && operation.OperationType == Replicated
 //@   at before-assign r.lastApplied assert [advance] newval == r.lastApplied + 1 && newval <= r.commitIndex
-//@   at call respond assert [answer] response.Operation.LogIndex == operation.LogIndex && response.Operation.LogTerm == operation.LogTerm && response.Operation.Bytes == operation.Bytes && err == nil
+//@   at call respond(responseCh, assert [answer] response.Operation.LogIndex == operation.LogIndex && response.Operation.LogTerm == operation.LogTerm && response.Operation.Bytes == operation.Bytes && err == nil
 
 //@ func Raft.applyConfiguration
 //@   flags inline lockheld
